@@ -852,6 +852,11 @@ func Compare(refTree *Tree, compTrees <-chan Trees, tips, comparetreeidentical b
 									common++
 								}
 							}
+							// All the branches of the compared tree are in the reference tree:
+							// the trees are identical only if the converse is also true
+							if sametree && common != total {
+								sametree = false
+							}
 						}
 					}
 				}
